@@ -53,6 +53,12 @@ ASSUMPTIONS = [
     '(known finding agc-inplace, DESIGN §8): the model describes the values returned; call sequences restore exactly these arguments before every call and make no follow-up '
     'call on them. For every other argument a sequence [f, f, other library calls, f, fshift(x, 1)] on the same objects must keep returning the results of the original values; '
     'bit-identity of arguments and aliasing of results are recorded as tags only',
+    'input forms: every sequence also makes the same call in another legitimate form — data as float32 / Fortran order / transposed view / strided view / read-only / int64 / int16 '
+    '(integer-valued), labels as int64/int32/uint8/float64/float32, collection as int64/int8/float64/string labels/list, operator as str/np.str_, integer-valued scalars '
+    '(fs, lagc, ntr_pad, ntr_tap, wl, si, dx) as int/float/np.float64/np.int64/narrow numpy ints/np.float32, keywords vs POSITIONAL arguments in the order of the current signatures — '
+    'and compares VALUES (result dtype ignored) with the float64/keyword call: 1e-9 x scale, 1e-4 x scale for float32 data. Excluded forms: integer dtypes for agc / gain control on / '
+    'channel groups / fshift (the unchanged code truncates: known findings int-dtype-agc, int-dtype-groups; fshift is C07), read-only data for the in-place class; '
+    'unsupported by the API and never generated: labels or header entries as Python lists, vbounds as ndarray',
     'agc with epsilon > 0 (theorem hypothesis; the default is 1e-8); outside-brain oracle uses labels 0/3 only (bad channels next to outside ones use them as interpolation donors: C15)',
 ]
 TRUSTED = [
@@ -141,7 +147,185 @@ def _cmp_arrays(ctx, op, desc, impl, model_ans, shape, scale, nontrivial=True, t
 # ---------------------------------------------------------------------------------------------
 import copy
 
-DEFAULT_STEPS = ['call', 'call', 'interleave', 'call', 'follow-up']
+DEFAULT_STEPS = ['call', 'call-form', 'interleave', 'call', 'follow-up']
+
+# ---- input forms: every legitimate representation of the same values / the same call must give the same answer ---------------
+# Parameter ORDER and defaults of the signatures as they are in the unchanged tree: a positional caller relies on exactly this.
+# (If the order in the source changes, `inspect.signature` shows it — recorded as a tag — and the positional call below, spelled in THIS
+# order, returns a wrong result or raises: that result is what is reported.)
+POSITIONAL = {
+    'agc': [('x',), ('wl', 0.5), ('si', 0.002), ('epsilon', 1e-8), ('gpu', False)],
+    'fk': [('x',), ('si', 0.002), ('dx', 1), ('vbounds', None), ('btype', 'highpass'), ('ntr_pad', 0), ('ntr_tap', None), ('lagc', 0.5),
+           ('collection', None), ('kfilt', None)],
+    'car': [('x',), ('collection', None), ('operator', 'median')],
+    'kfilt': [('x',), ('collection', None), ('ntr_pad', 0), ('ntr_tap', None), ('lagc', 300), ('butter_kwargs', None), ('gpu', False)],
+    'destripe': [('x',), ('fs',), ('h', None), ('neuropixel_version', 1), ('butter_kwargs', None), ('k_kwargs', None), ('channel_labels', None),
+                 ('k_filter', True)],
+    'destripe_lfp': [('x',), ('fs',), ('h', None), ('channel_labels', None), ('butter_kwargs', None), ('k_filter', False)],
+    'fshift': [('w',), ('s',), ('axis', -1), ('ns', None)],
+}
+DATA_FORMS = ['f64C', 'f32', 'F', 'Tview', 'strided', 'readonly', 'int64', 'int16']
+SCALAR_KEYS = ('lagc', 'ntr_pad', 'ntr_tap', 'wl', 'si', 'dx')
+
+
+def signature_order_changed(name):
+    import inspect
+    want = [q[0] for q in POSITIONAL[name]]
+    have = [k for k, v in inspect.signature(_fn(name)).parameters.items() if v.kind not in (v.VAR_KEYWORD, v.VAR_POSITIONAL)]
+    return have[:len(want)] != want
+
+
+def _data_form(x, form):
+    """the same values in another representation (None when the form cannot hold these values)"""
+    x = np.asarray(x)
+    if form == 'f64C':
+        return np.array(x, dtype=float, order='C')
+    if form == 'f32':
+        return x.astype(np.float32)
+    if form == 'F':
+        return np.asfortranarray(x.astype(float))
+    if form == 'Tview':
+        return np.ascontiguousarray(x.astype(float).T).T if x.ndim == 2 else x.astype(float)
+    if form == 'strided':
+        big = np.full(tuple(2 * n for n in x.shape), np.nan)
+        sl = tuple(slice(None, None, 2) for _ in x.shape)
+        big[sl] = x
+        return big[sl]
+    if form == 'readonly':
+        r = np.array(x, dtype=float)
+        r.setflags(write=False)
+        return r
+    if form in ('int64', 'int16'):
+        lim = 32767 if form == 'int16' else 2 ** 52
+        if x.size and np.all(np.isfinite(x)) and np.all(x == np.round(x)) and np.max(np.abs(x)) <= lim:
+            return x.astype(form)
+        return None
+    raise KeyError(form)
+
+
+def _scalar_form(v, form):
+    if v is None or isinstance(v, (bool, np.bool_)) or not isinstance(v, (int, float, np.integer, np.floating)):
+        return v
+    whole = float(v) == round(float(v))
+    if form == 'py':
+        return int(v) if whole else float(v)
+    if form == 'float':
+        return float(v)
+    if form == 'np.float64':
+        return np.float64(v)
+    if not whole:
+        return np.float64(v)
+    iv = int(round(float(v)))
+    if form == 'np.int64':
+        return np.int64(iv)
+    if form == 'narrow':
+        return np.uint8(iv) if 0 <= iv <= 255 else np.int16(iv) if abs(iv) <= 32767 else np.int32(iv)
+    if form == 'np.float32':
+        return np.float32(iv) if abs(iv) < 2 ** 24 else np.float64(iv)
+    raise KeyError(form)
+
+
+def _collection_form(c, form):
+    if c is None:
+        return None
+    c = np.asarray(c)
+    if form == 'int64':
+        return c.astype(np.int64)
+    if form == 'int8':
+        return c.astype(np.int8) if np.all(np.abs(c) < 127) else c
+    if form == 'float64':
+        return c.astype(float)
+    if form == 'str':
+        return np.array([f'shank{int(v):+d}' for v in c])
+    if form == 'list':
+        return [int(v) for v in c]
+    raise KeyError(form)
+
+
+def draw_form(rng, name):
+    return {'data': str(rng.choice(DATA_FORMS)), 'labels': str(rng.choice(['int64', 'int32', 'uint8', 'float64', 'float32'])),
+            'collection': str(rng.choice(['int64', 'int8', 'float64', 'str', 'list'])), 'operator': str(rng.choice(['str', 'np.str_'])),
+            'scalars': str(rng.choice(['py', 'float', 'np.float64', 'np.int64', 'narrow', 'np.float32'])),
+            'spelling': str(rng.choice(['keyword', 'positional', 'positional']))}
+
+
+def apply_form(name, args, kwargs, form):
+    """(args', kwargs', tolerance factor, note) — the same call in another legitimate form; (None, None, None, why) when the form is excluded:
+    integer dtypes for agc / gain control / channel groups (known findings int-dtype-agc, int-dtype-groups), read-only data for the in-place class."""
+    args, kwargs = copy.deepcopy(list(args)), copy.deepcopy(dict(kwargs))
+    tol = 1e-9
+    inplace = bool(_documented_inplace(name, args, kwargs))
+    kk = kwargs.get('k_kwargs') if isinstance(kwargs.get('k_kwargs'), dict) else None
+    has_coll = kwargs.get('collection') is not None or (kk is not None and kk.get('collection') is not None)
+    df = form.get('data', 'f64C')
+    if df in ('int64', 'int16') and (name in ('agc', 'fshift') or has_coll or (name in ('kfilt', 'fk') and inplace)):
+        df = 'f64C'                                                   # excluded: the unchanged code truncates (known findings)
+    if df == 'readonly' and inplace:
+        df = 'f64C'                                                   # unsupported by the API: the in-place functions need a writeable array
+    xf = _data_form(args[0], df)
+    if xf is None:
+        df, xf = 'f64C', _data_form(args[0], 'f64C')
+    args[0] = xf
+    if df == 'f32':
+        tol = 1e-4
+    sf = form.get('scalars', 'py')
+    if sf == 'np.float32':
+        tol = 1e-4                                                    # a float32 scalar makes NumPy compute derived parameters (300 / fs * 2) in float32
+    if name in ('destripe', 'destripe_lfp'):
+        args[1] = _scalar_form(args[1], sf)
+    for d in (kwargs, kk):
+        if d is None:
+            continue
+        for k in SCALAR_KEYS:
+            if k in d:
+                d[k] = _scalar_form(d[k], sf)
+        if d.get('collection') is not None:
+            d['collection'] = _collection_form(d['collection'], form.get('collection', 'int64'))
+        if isinstance(d.get('operator'), str) and form.get('operator') == 'np.str_':
+            d['operator'] = np.str_(d['operator'])
+    if isinstance(kwargs.get('channel_labels'), np.ndarray):
+        kwargs['channel_labels'] = kwargs['channel_labels'].astype(form.get('labels', 'int64'))
+    if form.get('spelling') == 'positional':
+        table = POSITIONAL[name]
+        names = [q[0] for q in table]
+        given = [k for k in kwargs if k in names]
+        last = max([len(args) - 1] + [names.index(k) for k in given])
+        for pos in range(len(args), last + 1):
+            k = names[pos]
+            args.append(kwargs.pop(k) if k in kwargs else copy.deepcopy(table[pos][1]))
+    return args, kwargs, tol, {**form, 'data': df}
+
+
+def _call_text(name, args, kwargs):
+    def short(v):
+        if isinstance(v, np.ndarray):
+            return f'<{v.dtype}{list(v.shape)}{"" if v.flags.c_contiguous else " non-C"}{"" if v.flags.writeable else " read-only"}>'
+        if isinstance(v, dict):
+            return '{' + ', '.join(f'{k}: {short(w)}' for k, w in v.items()) + '}'
+        return repr(v)
+    return f"{name}({', '.join([short(a) for a in args] + [f'{k}={short(v)}' for k, v in kwargs.items()])})"
+
+
+def _value_diff(a, b, tol, scale):
+    """a (result of another form) against b (result of the base form) as VALUES: dtypes may differ"""
+    if isinstance(b, (tuple, list)):
+        if not isinstance(a, (tuple, list)) or len(a) != len(b):
+            return 'another number of results'
+        for k, (u, v) in enumerate(zip(a, b)):
+            d = _value_diff(u, v, tol, scale)
+            if d:
+                return f'result[{k}]: {d}'
+        return None
+    a, b = np.asarray(a, float), np.asarray(b, float)
+    if a.shape != b.shape:
+        return f'shape {list(a.shape)}, expected {list(b.shape)}'
+    if a.size == 0:
+        return None
+    bad = ~((np.abs(a - b) <= tol * scale) | (np.isnan(a) & np.isnan(b)) | (a == b))
+    if bad.any():
+        k = int(np.argmax(bad.ravel()))
+        return f'element {k} is {a.ravel()[k]!r}, expected {b.ravel()[k]!r}'
+    return None
 
 
 def _fn(name):
@@ -217,6 +401,16 @@ def _documented_inplace(name, args, kwargs):
     return []
 
 
+def _arrays_of(r):
+    if isinstance(r, np.ndarray):
+        return [r]
+    if isinstance(r, (tuple, list)):
+        return [a for v in r for a in _arrays_of(v)]
+    if isinstance(r, dict):
+        return [a for v in r.values() for a in _arrays_of(v)]
+    return []
+
+
 def _interleave():
     """Other functions of the library between two identical calls, each working (some of them in place) on its OWN arrays."""
     from ibldsp import voltage, fourier
@@ -239,7 +433,7 @@ def _interleave():
     fourier.convolve(r.normal(size=(2, 9)), np.hanning(3), mode='same')
 
 
-def run_sequence(name, args, kwargs, steps=None, info=None):
+def run_sequence(name, args, kwargs, steps=None, info=None, form=None):
     """Run `steps` with the SAME argument objects.  Returns (results, problem).  results = copies of what each call returned.
     problem = None, or the first RESULT that is not the one belonging to the original argument values:
       * a repeated call (same objects, possibly after other library calls) not returning what call #1 returned;
@@ -270,6 +464,24 @@ def run_sequence(name, args, kwargs, steps=None, info=None):
                     return results + [res], (f'sequence [{" ; ".join(hist)}] on the same argument objects: call #{ncall} does not return what call #1 '
                                              f'returned for these arguments — {d}')
             results.append(res)
+        elif st == 'call-form' and results:
+            for k in inplace:
+                np.copyto(args[k], snap_args[k])
+            fa, fk_, tol, used = apply_form(name, snap_args, snap_kw, form or {})
+            text = _call_text(name, fa, fk_)
+            hist.append(text)
+            if info is not None:
+                info.append('form ' + ' '.join(f'{k}={v}' for k, v in used.items()))
+            scale = max([1e-300] + [float(np.max(np.abs(np.nan_to_num(np.asarray(r, float))))) for r in _arrays_of(results[0]) + [np.asarray(snap_args[0])] if np.size(r)])
+            try:
+                res = fn(*fa, **fk_)
+            except Exception as e:
+                return results, (f'the call in the form {text} raised {type(e).__name__}: {e} — the same call with keywords / float64 C-ordered data '
+                                 f'returned a result  [sequence: {" ; ".join(hist)}]')
+            d = _value_diff(res, results[0], tol, scale)
+            if d:
+                return results, (f'the call in the form {text} does not return the values that the same call with keywords / float64 C-ordered data '
+                                 f'returns — {d}  [sequence: {" ; ".join(hist)}]')
         elif st == 'interleave':
             hist.append('other library calls on their own arrays')
             _interleave()
@@ -290,13 +502,16 @@ def _seq_call(ctx, rng, name, args, kwargs, p=0.5):
     consequences of carried state, and returns the result of the LAST call — which the caller compares with the Lean model of the original
     values (so the model is compared with a result obtained after repeated / interleaved use of the same objects)."""
     steps = DEFAULT_STEPS if rng.random() < p else ['call']
-    spec = {'fn': name, 'args': _enc(args), 'kwargs': _enc(kwargs), 'steps': steps}
+    form = draw_form(rng, name)
+    spec = {'fn': name, 'args': _enc(args), 'kwargs': _enc(kwargs), 'steps': steps, 'form': form}
     info = []
-    results, prob = run_sequence(name, args, kwargs, steps=steps, info=info)
+    results, prob = run_sequence(name, args, kwargs, steps=steps, info=info, form=form)
     ctx.compare('sequence', {'op': 'sequence', **spec}, 'consistent' if prob is None else 'violated: ' + prob, 'consistent',
                 tags=('sequence', 'sequence-' + name, 'repeated+interleaved+follow-up' if len(steps) > 1 else 'single-call',
                       'documented-inplace-x' if _documented_inplace(name, args, kwargs) else 'x-not-documented-inplace')
-                     + (('info:argument-modified',) if info else ()))
+                     + tuple('form:' + t for i_ in info if i_.startswith('form ') for t in i_.split()[1:])
+                     + (('info:argument-modified',) if any('modified' in i_ for i_ in info) else ())
+                     + (('info:signature-order-changed',) if signature_order_changed(name) else ()))
     if prob is not None:
         ctx.__dict__.setdefault('_purity_fails', []).append((spec, prob))
     return results[-1]
@@ -308,7 +523,7 @@ def oracle_sequence(i):
     kfilt / fk without collection when gain control is on, is overwritten by the unchanged code)"""
     args, kwargs = _dec(i['args']), _dec(i['kwargs'])
     try:
-        _, prob = run_sequence(i['fn'], args, kwargs, steps=i.get('steps'))
+        _, prob = run_sequence(i['fn'], args, kwargs, steps=i.get('steps'), form=i.get('form'))
     except (ValueError, AssertionError):
         return None          # the function rejects these arguments outright: nothing to repeat
     return prob
@@ -552,7 +767,7 @@ def _twin_part(ctx):
             x, xtag = _gen_matrix(rng, nc, ns)
             coll = (np.arange(nc) % k) if rng.random() < 0.5 else (np.arange(nc) * k // nc)
             ctag = 'coll=filterable'
-        pad = int(rng.choice([0, 0, 1, 2, 5, nc]))
+        pad = min(int(rng.choice([0, 0, 1, 2, 5, nc])), nc)          # ntr_pad > nc is outside the model (ASSUMPTIONS)
         tap = rng.choice([None, 0, 1, 3, pad])
         tap = None if tap is None else int(tap)
         lagc = rng.choice([None, 0, 1, 3, 10, 300])
@@ -852,9 +1067,9 @@ def oracle_center(i):
     from ibldsp import voltage
     x = np.array(i['x'], float)
     coll = None if i['collection'] is None else np.array(i['collection'])
-    y = voltage.car(x.copy(), collection=coll, operator=i['operator'])
+    y = np.asarray(voltage.car(_data_form(x, i.get('form', 'f64C')), collection=coll, operator=i['operator']), float)
     stat = np.median if i['operator'] == 'median' else np.mean
-    sc = max(float(np.max(np.abs(x))), 1e-300)
+    sc = max(float(np.max(np.abs(x))), 1e-300) * _FORM_TOL[i.get('form', 'f64C')]
     groups = [np.ones(x.shape[0], bool)] if coll is None else [coll == c for c in np.unique(coll)]
     for g in groups:
         v = stat(y[g], axis=0)
@@ -869,7 +1084,7 @@ def _call_spatial(i, x, coll):
     kw = dict(i['settings'])
     if coll is not None:
         kw['collection'] = coll
-    return getattr(voltage, i['fn'])(x.copy(), **kw)
+    return np.asarray(getattr(voltage, i['fn'])(_data_form(x, i.get('form', 'f64C')), **kw), float)
 
 
 def oracle_groups(i):
@@ -884,7 +1099,7 @@ def oracle_groups(i):
         y = _call_spatial(i, x, coll)
     except Exception as e:
         return f'{i["fn"]} with channel groups raised {type(e).__name__} although every group is accepted on its own'
-    sc = max(float(np.max(np.abs(x))), max(float(np.max(np.abs(v))) for v in parts.values()), 1e-300)
+    sc = max(float(np.max(np.abs(x))), max(float(np.max(np.abs(v))) for v in parts.values()), 1e-300) * _FORM_TOL[i.get('form', 'f64C')]
     for c, v in parts.items():
         dlt = np.max(np.abs(y[coll == c] - v)) if v.size else 0.0
         if dlt > 1e-9 * sc:
@@ -897,13 +1112,18 @@ def oracle_agc(i):
     """gain control returns data and gain whose product is the input"""
     from ibldsp import voltage
     x = np.array(i['x'], float)
-    d, g = voltage.agc(x.copy(), wl=i['wl'], si=i['si'], epsilon=i['epsilon'])
-    sc = max(float(np.max(np.abs(x))), 1e-300)
+    d, g = voltage.agc(_data_form(x, i.get('form', 'f64C')), wl=i['wl'], si=i['si'], epsilon=i['epsilon'])
+    d, g = np.asarray(d, float), np.asarray(g, float)
+    sc = max(float(np.max(np.abs(x))), 1e-300) * _FORM_TOL[i.get('form', 'f64C')]
     err = np.abs(d * g - x)
     if not np.all(np.isfinite(err)) or np.max(err) > 1e-9 * sc:
         k = np.unravel_index(int(np.argmax(np.nan_to_num(err, nan=np.inf))), err.shape)
         return f'data*gain = {float((d * g)[k])!r} but the input is {float(x[k])!r} at channel {k[0]}, sample {k[1]}'
     return None
+
+
+_FORM_TOL = {'f64C': 1.0, 'F': 1.0, 'Tview': 1.0, 'strided': 1.0, 'f32': 1e5}      # x 1e-9: float32 data are held to 1e-4 of the scale
+LAW_FORMS = ['f64C', 'f64C', 'f32', 'F', 'Tview', 'strided']
 
 
 ORACLES = {'stripe': oracle_stripe, 'spike': oracle_spike, 'outside': oracle_outside, 'center': oracle_center,
@@ -996,7 +1216,8 @@ def _gen_center(rng, small=False):
     if small:
         x = np.round(rng.normal(size=(nc, ns)) * 4)
     coll, _ = _gen_collection(rng, nc)
-    return {'operator': str(rng.choice(['median', 'average'])), 'collection': None if coll is None else coll.tolist(), 'x': x.tolist()}
+    return {'operator': str(rng.choice(['median', 'average'])), 'collection': None if coll is None else coll.tolist(), 'x': x.tolist(),
+            'form': 'f64C' if small else str(rng.choice(LAW_FORMS))}
 
 
 def _gen_groups(rng, fn=None, small=False):
@@ -1025,7 +1246,7 @@ def _gen_groups(rng, fn=None, small=False):
         coll, _ = _gen_collection(rng, nc)
         if coll is None:
             coll = np.arange(nc) % 2
-    return {'fn': fn, 'settings': st, 'collection': [int(v) for v in coll], 'x': x.tolist()}
+    return {'fn': fn, 'settings': st, 'collection': [int(v) for v in coll], 'x': x.tolist(), 'form': 'f64C' if small else str(rng.choice(LAW_FORMS))}
 
 
 def _gen_agc(rng, small=False):
@@ -1034,7 +1255,7 @@ def _gen_agc(rng, small=False):
     if small:
         x = np.round(rng.normal(size=(nc, ns)) * 4)
     wl, si = [(0.5, 0.002), (3.0, 1.0), (10.0, 1.0), (300.0, 1.0), (0.01, 0.002), (1.0, 1.0)][int(rng.integers(0, 6))]
-    return {'wl': wl, 'si': si, 'epsilon': 1e-8, 'x': x.tolist()}
+    return {'wl': wl, 'si': si, 'epsilon': 1e-8, 'x': x.tolist(), 'form': 'f64C' if small else str(rng.choice(LAW_FORMS))}
 
 
 def _gen_sequence(rng, small=False):
@@ -1084,11 +1305,17 @@ def _gen_sequence(rng, small=False):
             lab = np.zeros(nc, int)
             lab[int(rng.integers(1, nc - 1))] = 1
             lab[nc - 1] = 3
-            kw = {'h': h, 'channel_labels': lab, 'k_filter': False}
+            kw = {'h': h, 'channel_labels': lab}
             if not lfp:
                 kw['k_kwargs'] = {'operator': 'median'}
+                kw['k_filter'] = False
+            elif rng.random() < 0.5:
+                kw['k_filter'] = False
         args = [x, 2500 if lfp else 30000]
-    return {'fn': name, 'args': _enc(args), 'kwargs': _enc(kw), 'steps': list(DEFAULT_STEPS)}
+    form = draw_form(rng, name)
+    if form['data'] in ('int64', 'int16'):            # the form is drawn independently of the values: make the values representable
+        args[0] = np.clip(np.round(args[0] / max(float(np.max(np.abs(args[0]))), 1e-300) * 300), -32767, 32767)
+    return {'fn': name, 'args': _enc(args), 'kwargs': _enc(kw), 'steps': list(DEFAULT_STEPS), 'form': form}
 
 
 GENS = {'sequence': _gen_sequence, 'stripe': _gen_stripe, 'spike': _gen_spike, 'outside': _gen_outside, 'center': _gen_center, 'groups': _gen_groups, 'agc': _gen_agc}
@@ -1114,6 +1341,8 @@ def _oracle_part(ctx):
             tags = ('law-' + kind,)
             if kind in ('groups', 'sequence'):
                 tags += (f'law-{kind}-' + inp['fn'],)
+            if isinstance(inp.get('form'), str):
+                tags += ('law-form:' + inp['form'],)
             run(kind, inp, tags)
     att = {}
     for k in range(ctx.n(48, 400)):
@@ -1235,8 +1464,16 @@ def search(ctx, reasons):
                 break
     if not found:
         return None
-    found.sort(key=lambda f: f[0])
+    found.sort(key=lambda f: (f[0][0], 'raised' in f[3], f[0][1]))
     _, kind, inp, r = found[0]
+    if kind == 'sequence' and inp.get('form'):          # keep only the deviations of the form that matter
+        base = {'data': 'f64C', 'labels': 'int64', 'collection': 'int64', 'operator': 'str', 'scalars': 'py', 'spelling': 'keyword'}
+        for k in base:
+            if inp['form'].get(k) != base[k]:
+                trial = {**inp, 'form': {**inp['form'], k: base[k]}}
+                r2 = run_oracle('sequence', trial)
+                if r2 is not None:
+                    inp, r = trial, r2
     inp = {k: v for k, v in inp.items() if not k.startswith('_')}
     return {'input': {'oracle': kind, **inp}, 'observed': r, 'expected': EXPECTED[kind],
             'how': f"python (PYTHONPATH=harness:$IBL_REPO/src): from props import c05; c05.run_oracle('{kind}', input)  — input without the 'oracle' key; "
@@ -1252,7 +1489,20 @@ def known_findings(ctx):
         want = voltage.car(x.copy())
         voltage.kfilt(x, lagc=3)
         return bool(np.max(np.abs(voltage.car(x) - want)) > 1e-9)
-    return {'agc-inplace': agc_inplace}
+    def int_dtype_groups():
+        # integer-dtype data with channel groups: xout = np.zeros_like(x) is an integer array, the per-group results are truncated into it
+        from ibldsp import voltage
+        x = np.array([[1, 2], [2, 5], [4, 9]], dtype=np.int16)
+        coll = np.array([0, 0, 0])
+        return bool(np.max(np.abs(voltage.car(x, collection=coll, operator='average').astype(float) - voltage.car(x, operator='average'))) > 0.1)
+
+    def int_dtype_agc():
+        # integer-dtype data through agc: `x[~dead] = x / gain` stores the quotient into the integer array, data * gain is not the input any more
+        from ibldsp import voltage
+        x = np.array([[10, -20, 30, 40, -50, 60]], dtype=np.int64)
+        d, g = voltage.agc(x.copy(), wl=3, si=1.0)
+        return bool(np.max(np.abs(d * g - x)) > 1.0)
+    return {'agc-inplace': agc_inplace, 'int-dtype-groups': int_dtype_groups, 'int-dtype-agc': int_dtype_agc}
 
 
 def replay(ctx, rep):
